@@ -360,7 +360,7 @@ class RustView:
         return cur
 
 
-def emit_rs(model, recs, view, bindings_path, c_naming=False, namespaces=False, layout_only=False):
+def emit_rs(model, recs, view, bindings_path, c_naming=False, namespaces=False, layout_only=False, layout_only_recs=()):
     """Returns (source, info). info lists hidden leaves / records per record."""
     out = [RS_PRELUDE, 'include!("%s");' % bindings_path]
     if namespaces:
@@ -401,7 +401,7 @@ def emit_rs(model, recs, view, bindings_path, c_naming=False, namespaces=False, 
         ext.append("    fn vf_fill_%s(p: *mut %s, k: i32); fn vf_dump_%s(p: *const %s);" % (tn, rt, tn, rt))
         main.append('    println!("RL %s {} {}", std::mem::size_of::<%s>(), std::mem::align_of::<%s>());' % (tn, rt, rt))
         ok_leaves = []
-        if layout_only:
+        if layout_only or tn in layout_only_recs:
             continue
         for lf in lvs:
             if lf.bits is not None:
